@@ -340,6 +340,12 @@ func (i *Interpreter) Exec(ctx context.Context, bs match.Bindings, props core.St
 	}()
 
 	v, err := RunProgram(o, p)
+	var x interface{}
+	if err == nil {
+		// Exporting the result can run code (getters), so do
+		// that while that code can still be interrupted.
+		x, err = export(v)
+	}
 	cancel()
 
 	if err != nil {
@@ -348,8 +354,6 @@ func (i *Interpreter) Exec(ctx context.Context, bs match.Bindings, props core.St
 		}
 		return nil, err
 	}
-
-	x := v.Export()
 
 	var result match.Bindings
 	switch vv := x.(type) {
@@ -393,6 +397,22 @@ func canonicalize(x interface{}) (interface{}, error) {
 		return nil, err
 	}
 	return y, nil
+}
+
+// export gets the Go representation of a value that code returned.
+//
+// Exporting can run code (a getter), which can throw.
+func export(v goja.Value) (x interface{}, err error) {
+	defer func() {
+		if r := recover(); r != nil {
+			if ie, is := r.(*goja.InterruptedError); is {
+				err = ie
+			} else {
+				err = fmt.Errorf("%s", r)
+			}
+		}
+	}()
+	return v.Export(), nil
 }
 
 func RunProgram(o *goja.Runtime, p *goja.Program) (v goja.Value, err error) {
